@@ -82,13 +82,20 @@ def run(tier, seed, mutant=None, only_validate=False):
         if not only_validate:
             for p in ((1, 2) if tier == "quick" else (1, 2, 3)):
                 for sync in (False, True):
-                    r, rec = amod.mc(res, work, "AsyncMapAsync", "p%d_sync%d" % (p, sync),
-                                     dict(NE=ne, P=p, SyncCons=sync, MaxOut=ne, Legacy=False), INVS, ["EmitsComplete", "AllDelivered"],
+                    # the design in which the awaited task counts against the limit: everything holds
+                    r, rec = amod.mc(res, work, "AsyncMapAsync", "ideal_p%d_sync%d" % (p, sync),
+                                     dict(NE=ne, P=p, SyncCons=sync, MaxOut=ne, Legacy=False, EarlySlot=False), INVS,
+                                     ["EmitsComplete", "AllDelivered"], spec="FairSpec", coverage=False)
+                    amod.spec_violation(res, r, rec, INV_PROP, "C02", "map_async")
+                    # the tree (slot freed by get()): everything but the two parallelism bounds
+                    r, rec = amod.mc(res, work, "AsyncMapAsync", "tree_p%d_sync%d" % (p, sync),
+                                     dict(NE=ne, P=p, SyncCons=sync, MaxOut=ne, Legacy=False, EarlySlot=True),
+                                     [i for i in INVS if i not in ("Parallelism", "Bound")], ["EmitsComplete", "AllDelivered"],
                                      spec="FairSpec", coverage=False)
                     amod.spec_violation(res, r, rec, INV_PROP, "C02", "map_async")
-            for inv in ("InOrder", "Parallelism", "CbSafe"):
-                r, rec = amod.mc(res, work, "AsyncMapAsync", "legacy_" + inv, dict(NE=3, P=1, SyncCons=False, MaxOut=3, Legacy=True), [inv],
-                                 coverage=False)
+            for inv, leg in (("InOrder", True), ("CbSafe", True), ("Parallelism", False)):
+                r, rec = amod.mc(res, work, "AsyncMapAsync", ("legacy_" if leg else "tree_") + inv,
+                                 dict(NE=3, P=1, SyncCons=False, MaxOut=3, Legacy=leg, EarlySlot=True), [inv], coverage=False)
                 rec["expected_violation"] = inv
                 rec["ok"] = r.violated == inv
                 if r.violated != inv:
@@ -96,7 +103,7 @@ def run(tier, seed, mutant=None, only_validate=False):
         cfgs = [{"kind": "map_async", "parallelism": p, "cons": [c], "max_elems": ne}
                 for p in ((1, 2) if tier == "quick" else (1, 2, 3)) for c in ("future", "sync")]
         amod.node_engine(res, work, node="map_async", trace_module="AsyncMapAsyncTrace", cfgs=cfgs,
-                         consts_of=lambda c: dict(NE=ne, P=c["parallelism"], SyncCons=c["cons"][0] == "sync", MaxOut=ne, Legacy=False),
+                         consts_of=lambda c: dict(NE=ne, P=c["parallelism"], SyncCons=c["cons"][0] == "sync", MaxOut=ne, Legacy=False, EarlySlot=True),
                          adapt=adapt, attribute=attribute, seed=seed, depth=8 if tier == "quick" else 10,
                          limit=250 if tier == "quick" else 2500, nrandom=250 if tier == "quick" else 2500, maxlen=18,
                          default_prop="C02", mutant=mutant,
@@ -106,3 +113,12 @@ def run(tier, seed, mutant=None, only_validate=False):
     finally:
         shutil.rmtree(work, ignore_errors=True)
     return res
+
+
+TRACE_MODULE = "AsyncMapAsyncTrace"
+consts_of = lambda c: dict(NE=c['max_elems'], P=c['parallelism'], SyncCons=c['cons'][0] == 'sync', MaxOut=c['max_elems'], Legacy=False, EarlySlot=True)
+
+
+def replay(v):
+    import sys as _s
+    return amod.replay_node(_s.modules[__name__], v)
